@@ -179,7 +179,16 @@ def run(rep, facts, tier):
     fx.need('state::State::build0')
     b0 = V('state::State::build0')
     w0 = W.get('state::State::build0', [])
-    rec_blocks = {w['bb'] for w in w0 if w['field'][0] == 'last_error' and w['how'] == 'assign'}
+    rec_blocks = {w['bb'] for w in w0 if w['field'][0] == 'last_error' and w['how'] == 'assign' and
+                  'ErrorContext' in expr_str(b0.expr_of_rvalue(w['stmt']['rv'], 0, frozenset()), -20)}
+    # "an error is already recorded" counts as recorded: the first location wins
+    for b2 in b0.reachable_blocks():
+        br = bool_branch(b0, b2)
+        if br and isinstance(br[0], tuple) and br[0][0] == 'call' and 'last_error' in expr_str(br[0], -20):
+            if br[0][1].endswith('::is_some'):
+                rec_blocks.add(br[1])
+            elif br[0][1].endswith('::is_none'):
+                rec_blocks.add(br[2])
     recorded, prop, how = stepfx.step_error_recorded(fx, b0, step='state::State::build1', recorder='-', recorder_blocks=rec_blocks,
                                                      closure_records=lambda g: g in rec_fns)
     okb = recorded and prop
